@@ -55,7 +55,7 @@ def gen_cases(tier, seed):
                 continue
             k += 1
             w = worlds[(k + pi) % 3] if pol not in ("randn3", "tiny_q") or (k % 2) else "f64"
-            for rep in range(1 if tier == "quick" else 12):
+            for rep in range(1 if tier == "quick" else 40):
                 cases.append({"cfg": cfg, "policy": pol, "mode": worlds[(k + pi + rep) % 3] if rep else w,
                               "world": "f64" if w == "f64" else "f32", "seed": env.subseed(seed, "c11", cfg, pol, rep), "cost": 1})
     # bundle to reduce process overhead
